@@ -172,24 +172,8 @@ probabilistic states (the state rewards are non-negative by `check_game`; holds 
 the loop ran) -/
 theorem rew_nonneg
     (hp : ∀ s < g.owners.size, g.owners.getD s .prob = .prob → ∀ t ∈ out.nodes.getD s [], 0 ≤ t.p)
-    (H : solve rnd thr fuel prune g = .ok out) : ∀ j, 0 ≤ out.rewards.getD j 0 := by
-  have hr := game_rewards_nonneg H
-  have := (solve_run H (fun x => x.er.size = g.owners.size ∧ ∀ j, 0 ≤ x.er.getD j 0)
-    ⟨(init_sized H).1, hr⟩ (fun x y d hx h => by
-      refine sweepRewFrom_inv (fun x => x.er.size = g.owners.size ∧ ∀ j, 0 ≤ x.er.getD j 0)
-        (List.range g.owners.size) ?_ (x, 0) (y, d) hx h
-      intro a s t hs ⟨hn, ha⟩ hst
-      have hv := vec_updAcc Comp.er a s t
-      change (updAcc a s t).1.er = a.1.er.setIfInBounds s t.1 at hv
-      rw [hv]
-      refine ⟨by simpa using hn, fun j => ?_⟩
-      rw [getD_setIfInBounds]
-      split_ifs with hc
-      · obtain ⟨e, m, p⟩ := t
-        rw [Rew.stepRew_fst rnd g.owners g.rewards out.nodes out.probs a.1 s e m p hst]
-        exact Brew_nonneg g.rewards hr _ s (hp s (List.mem_range.mp hs)) ha
-      · exact ha j)).1
-  exact this.2
+    (H : solve rnd thr fuel prune g = .ok out) : ∀ j, 0 ≤ out.rewards.getD j 0 :=
+  solve_er_nonneg hp H
 
 /-! ### 5: emptied states -/
 
@@ -274,5 +258,57 @@ theorem rew_bellman_consistency_noprune
   exact hrows s hs ho
 
 end NoPrune
+
+/-! ### non-vacuity: concrete runs over `Rat`
+
+`reverseDfs` does not reduce in the kernel; its value on the example games is supplied by
+`Examples.g7_ord` / `Examples.g6_ord`, everything else is evaluated by the kernel. -/
+
+section NonVacuity
+open CR.Examples CR.Rew.Examples
+
+example : NodesWF g7.owners g7nodes := g7_wf
+
+example : (thr : Rat) < 1 := by decide +kernel
+
+/-- `Brew` evaluated on the concrete conditioned game: probabilistic state 1, Player-1 state 3,
+emptied state 2 -/
+example : Brew g7.owners g7.rewards g7nodes #[2, 2, 0, 2, 0, 0, 0] 1 = 2 ∧
+    Brew g7.owners g7.rewards g7nodes #[2, 2, 0, 2, 0, 0, 0] 3 = 2 ∧
+    Brew g7.owners g7.rewards g7nodes #[2, 2, 0, 2, 0, 0, 0] 2 = 0 := by decide +kernel
+
+/-- all hypotheses of `rew_bellman_consistency` hold together on a concrete run -/
+example : ∃ out, solve (roundRat 6) thr 1000 true g7 = .ok out ∧
+    ∀ s < g7.owners.size,
+      |Brew g7.owners g7.rewards out.nodes out.rewards s - out.rewards.getD s 0| ≤ thr := by
+  obtain ⟨out, H, _, _, _, _, _, hn, _⟩ := g7_run
+  refine ⟨out, H, rew_bellman_consistency ?_ (by decide +kernel) H⟩
+  rw [hn]; exact g7_wf
+
+/-- ... and those of `rew_emptied_zero` (state 2 is emptied) -/
+example : ∃ out, solve (roundRat 6) thr 1000 true g7 = .ok out ∧
+    out.nodes.getD 2 [] = [] ∧ out.rewards.getD 2 0 = 0 := by
+  obtain ⟨out, H, _, _, _, _, _, hn, _⟩ := g7_run
+  have hrow : out.nodes.getD 2 [] = [] := by rw [hn]; rfl
+  exact ⟨out, H, hrow, (rew_emptied_zero (by decide +kernel) H 2 hrow).1⟩
+
+/-- a run with a Player-2 state (state 1 of the 6-state game), pruning off: the hypotheses of
+`rew_bellman_consistency_noprune` hold -/
+example : ∃ out, solve (roundRat 6) thr 1000 false g6 = .ok out ∧
+    (out.rewards, out.itRew) = (#[1, 0, 0, 1, 0, 0], 2) ∧
+    ∀ s < g6.owners.size,
+      |Brew g6.owners g6.rewards (pruneReachability g6.owners out.reachStrat g6.tl) out.rewards s
+        - out.rewards.getD s 0| ≤ thr := by
+  obtain ⟨out, H, hout⟩ : ∃ out, solve (roundRat 6) thr 1000 false g6 = .ok out ∧
+      (out.rewards, out.itRew) = (#[1, 0, 0, 1, 0, 0], 2) :=
+    exists_ok_of_toOption_map (by unfold solve solveReach; rw [g6_ord]; decide +kernel)
+  refine ⟨out, H, hout, rew_bellman_consistency_noprune ?_ (by decide +kernel) H⟩
+  intro s hs ho
+  have hs' : s < 6 := hs
+  have : s = 0 ∨ s = 1 ∨ s = 2 ∨ s = 3 ∨ s = 4 ∨ s = 5 := by omega
+  rcases this with rfl | rfl | rfl | rfl | rfl | rfl <;>
+    simp [g6, tr] at ho ⊢ <;> norm_num
+
+end NonVacuity
 
 end CR.C02
